@@ -135,7 +135,7 @@ PROPS = {
     },
     "C13": {
         "kani": [],
-        "verus": ["R", "Q", "W"],
+        "verus": ["R", "Q", "W", "L"],
         "audits": ["slab"],
         "trusted_base": ["Verus 0.2026.09.13 + Z3 (units R and Q)"],
         "assumptions": [
@@ -190,7 +190,8 @@ PROPS = {
     },
     "C06": {
         "kani": [],
-        "verus": ["Q", "X"],
+        "verus": ["Q", "X", "R", "L"],
+        "audits": ["slab"],
         "trusted_base": ["Verus 0.2026.09.13 + Z3 (unit Q: extracted Command::{run_task, run_until_settled, is_done, was_aborted} and Stream::poll_next)"],
         "assumptions": [
             "abort flags are read sequentially (c_aborted for the command, aborted_tasks for JoinHandle::abort); they are shared atomics: concurrent setting is not modelled (C08 not claimed)",
